@@ -436,6 +436,8 @@ fn apply_real(lv: &mut Live, ev: &Ev) -> String {
                 Err(e) => {
                     if e.to_string().contains("not leader") {
                         "notleader".into()
+                    } else if e.to_string().contains("WAL log persist failed") {
+                        "walfail".into()
                     } else {
                         format!("err:{e}")
                     }
@@ -684,6 +686,9 @@ struct Ctx<'a> {
     seen: HashSet<Vec<u8>>,
     thorough: bool,
     rot_observed: bool,
+    walfail_observed: bool,
+    /// how many more failing handler calls may go through `persist_term_and_vote`'s retry sleeps
+    slow_budget: u64,
 }
 
 /// One recorded handler call.
@@ -726,9 +731,92 @@ fn violation_class(kind: &str, repaired: bool, after_install: bool) -> String {
 }
 
 /// A whole case: up to `max_crashes` phases on one WAL file.
-fn run_case(cx: &mut Ctx, r: &mut Rng, case_no: u64, max_crashes: usize, script: Option<Vec<Ev>>, stream: &str) {
+/// WAL-failure plan of a case: which scripted events run while every `RaftWal::append` fails, and the
+/// per-event chance (percent) for the random ones. `FailCfg::none()` for the crash-only streams.
+#[derive(Clone, Default)]
+struct FailCfg {
+    scripted: Vec<bool>,
+    prob: u64,
+}
+impl FailCfg {
+    fn none() -> Self {
+        FailCfg::default()
+    }
+}
+
+/// Candidate finding, pending the coordinator's decision (I/O failures are outside C10's crash-only
+/// quantifier): reported through `observe` while this is false.
+const WALFAIL_IS_VIOLATION: bool = false;
+const WALFAIL_CLASS: &str = "tensor_chain.raft.append_leader_entries/unlogged_entry_acknowledged_after_wal_failure";
+
+/// Would this handler call reach `persist_term_and_vote` (three attempts, 100 + 200 ms of sleep when
+/// they fail)? Conservative.
+fn is_slow_fail(ev: &Ev, lv: &Live) -> bool {
+    let cur = lv.node.current_term();
+    match ev {
+        Ev::Elect => true,
+        Ev::Rv { t, .. } => *t >= cur,
+        Ev::Rvr { t } => *t > cur && lv.node.state() == RaftState::Candidate,
+        Ev::Pvr { t, pre } => *t > cur && (*pre || lv.in_pre),
+        Ev::Aer { t } => *t > cur && lv.node.state() == RaftState::Leader,
+        Ev::Ae { t, .. } => *t > cur,
+        Ev::Snap { lt, .. } => *lt > cur,
+        Ev::Lead | Ev::Prop { .. } => false,
+    }
+}
+
+/// an AppendEntries of the node's current term (no term record needed): new entries beyond the log,
+/// entries it already holds, or entries conflicting with an older-term suffix
+fn gen_ae_same_term(r: &mut Rng, lv: &Live) -> Ev {
+    let cur = lv.node.current_term().max(1);
+    let log = node_log(&lv.node);
+    let len = log.len() as u64;
+    let pi = if r.chance(3, 5) { len } else { r.below(len + 1) };
+    let pt = if pi >= 1 && pi <= len { log[(pi - 1) as usize].1 } else { 0 };
+    let k = r.below(4);
+    let mut ents = vec![];
+    let mut conflict = false;
+    for j in 0..k {
+        let idx = pi + 1 + j;
+        match log.get((idx - 1) as usize) {
+            Some(e) if !conflict && (e.1 == cur || r.chance(1, 2)) => ents.push((e.1, e.2)),
+            _ => {
+                conflict = true;
+                ents.push((cur, 1 + r.below(900)));
+            }
+        }
+    }
+    Ev::Ae { t: lv.node.current_term(), l: 1 + r.below(NPEERS), pi, pt, ents }
+}
+
+fn gen_event_failing(r: &mut Rng, lv: &Live, slow_budget: &mut u64) -> Ev {
+    for _ in 0..20 {
+        let ev = match r.below(20) {
+            0..=9 => gen_ae_same_term(r, lv),
+            10..=12 => Ev::Prop { c: 1 + r.below(900) },
+            13..=14 => gen_snap(r, lv.node.current_term(), &node_log(&lv.node)),
+            _ => gen_event(r, lv),
+        };
+        if !is_slow_fail(&ev, lv) {
+            return ev;
+        }
+        if *slow_budget > 0 {
+            *slow_budget -= 1;
+            return ev;
+        }
+    }
+    gen_ae_same_term(r, lv)
+}
+
+fn run_case(cx: &mut Ctx, r: &mut Rng, case_no: u64, max_crashes: usize, script: Option<Vec<Ev>>, stream: &str, fails: &FailCfg) {
     let dir = shm_dir();
-    let path: PathBuf = dir.path().join("raft.wal");
+    // the WAL lives in its own directory: hiding that directory makes `check_space` (statvfs of the
+    // parent) fail, i.e. every `RaftWal::append` returns Err before writing anything
+    let wal_dir = dir.path().join("d");
+    let wal_dir_hidden = dir.path().join("d_hidden");
+    std::fs::create_dir(&wal_dir).unwrap();
+    let path: PathBuf = wal_dir.join("raft.wal");
+    let mut had_fail = false;
     cx.m.ask("clear");
     cx.m.ask("drop_slots");
     cx.seen.clear();
@@ -756,12 +844,31 @@ fn run_case(cx: &mut Ctx, r: &mut Rng, case_no: u64, max_crashes: usize, script:
         };
         let mut steps: Vec<Step> = vec![];
         for ei in 0..nev {
-            let ev = if ei < scripted.len() { scripted[ei].clone() } else { gen_event(r, &lv) };
+            let failing = if ei < scripted.len() {
+                fails.scripted.get(ei).copied().unwrap_or(false)
+            } else {
+                fails.prob > 0 && r.chance(fails.prob, 100)
+            };
+            let ev = if ei < scripted.len() {
+                scripted[ei].clone()
+            } else if failing {
+                gen_event_failing(r, &lv, &mut cx.slow_budget)
+            } else {
+                gen_event(r, &lv)
+            };
             let before = std::fs::read(&path).unwrap_or_default();
             let nb = frames(&before).len();
             let term_before = lv.node.current_term();
             let log_before = node_log(&lv.node);
+            if failing {
+                had_fail = true;
+                cx.rep.hit(if is_slow_fail(&ev, &lv) { "fail.ev.term_record_path" } else { "fail.ev.log_or_none_path" });
+                std::fs::rename(&wal_dir, &wal_dir_hidden).unwrap();
+            }
             let reply = apply_real(&mut lv, &ev);
+            if failing {
+                std::fs::rename(&wal_dir_hidden, &wal_dir).unwrap();
+            }
             let after = std::fs::read(&path).unwrap_or_default();
             register(cx.m, &mut cx.seen, &after);
             let new_recs = decode_frames(&after, nb);
@@ -803,7 +910,9 @@ fn run_case(cx: &mut Ctx, r: &mut Rng, case_no: u64, max_crashes: usize, script:
                     if let Some(i) = reply.strip_prefix("proposed:") {
                         let i: u64 = i.parse().unwrap_or(0);
                         ghost.acted = ghost.acted.max(term);
-                        if let Some(e) = log.iter().find(|e| e.0 == i) {
+                        // the accepted entry is the one just pushed (after a WAL failure left a hole in the
+                        // recovered log, an older entry may carry the same index)
+                        if let Some(e) = log.iter().rev().find(|e| e.0 == i) {
                             ghost.acked.insert(*e);
                         }
                     }
@@ -856,11 +965,20 @@ fn run_case(cx: &mut Ctx, r: &mut Rng, case_no: u64, max_crashes: usize, script:
                 role_tok(&lv.node),
                 log_tok(&log)
             );
-            let line = ev.line();
+            let line = if failing { ev.line().replacen("ev ", "evf ", 1) } else { ev.line() };
             let mo = cx.m.ask(&line);
+            if failing {
+                cx.rep.hit(&format!("fail.{}", ev.tag()));
+                if after.len() != before.len() {
+                    cx.rep.disagree("fail.wrote", json!({"history": history, "ev": line}), "the WAL file changed during a handler whose appends must all fail", "unchanged file");
+                }
+                if log.len() != log_before.len() || log.iter().zip(log_before.iter()).any(|(a, b)| a != b) {
+                    cx.rep.hit("fail.memory_log_changed_without_wal");
+                }
+            }
             // the model prints term/voted/role/log; the real node has no votedFor getter (probed at restarts)
             let mo_cmp = strip_voted(&mo);
-            history.push(json!({"phase": phase, "ev": line, "impl": imp}));
+            history.push(if failing { json!({"phase": phase, "ev": line, "impl": imp, "wal_appends_fail": true}) } else { json!({"phase": phase, "ev": line, "impl": imp}) });
             let h = history.clone();
             cx.rep.compare("node.step", || json!({"history": h}), &imp, &mo_cmp);
             let mg = cx.m.ask("ghost");
@@ -979,12 +1097,21 @@ fn run_case(cx: &mut Ctx, r: &mut Rng, case_no: u64, max_crashes: usize, script:
                     let hist = history.clone();
                     cx.rep.compare("cut.restart", || json!({"history": hist, "cut": n}), &imp_node, &mo_node);
                     for (kind, detail) in obl.check(term, &voted, &log) {
-                        cx.rep.violation(
-                            &violation_class(kind, all_repaired && repaired, after_install),
-                            &detail,
-                            json!({"case": case_no, "phase": phase, "history": history, "cut": n, "file_len": file.len(),
-                                   "obligations": obl.tok(), "restarted": imp_node}),
-                        );
+                        let input = json!({"case": case_no, "phase": phase, "history": history, "cut": n, "file_len": file.len(),
+                                   "obligations": obl.tok(), "restarted": imp_node});
+                        if had_fail && kind == "lost_entry" && !WALFAIL_IS_VIOLATION {
+                            // an entry held in memory but never logged was acknowledged after a failed append
+                            cx.rep.hit("fail.acked_entry_lost");
+                            if !cx.walfail_observed {
+                                cx.walfail_observed = true;
+                                cx.rep.observe(json!({"candidate_class": WALFAIL_CLASS, "what": detail, "input": input,
+                                    "note": "candidate finding, kept as an observation until the coordinator decides: WAL append failures are outside C10's crash-only quantifier (first occurrence only; see distribution fail.acked_entry_lost)"}));
+                            }
+                        } else if had_fail && kind == "lost_entry" {
+                            cx.rep.violation(WALFAIL_CLASS, &detail, input);
+                        } else {
+                            cx.rep.violation(&violation_class(kind, all_repaired && repaired, after_install), &detail, input);
+                        }
                     }
                 }
                 (Err(e), _) | (_, Err(e)) => {
@@ -1276,6 +1403,52 @@ fn probe_codebook(cx: &mut Ctx) {
 }
 
 
+// ---------------------------------------------------------------- WAL append failures
+
+/// directed histories: (event, does every WAL append fail during it?)
+fn fail_scripts() -> Vec<(Vec<Ev>, Vec<bool>)> {
+    let ae = |t: u64, l: u64, pi: u64, pt: u64, ents: &[(u64, u64)]| Ev::Ae { t, l, pi, pt, ents: ents.to_vec() };
+    let snap = |li: u64, lt: u64, ents: &[(u64, u64)], streaming: bool| Ev::Snap { li, lt, ents: ents.to_vec(), streaming };
+    let raw: Vec<Vec<(Ev, bool)>> = vec![
+        // a new entry stays in memory after its append failed; the leader's retry acknowledges it unlogged
+        vec![(ae(1, 2, 0, 0, &[(1, 11)]), false), (ae(1, 2, 1, 1, &[(1, 12)]), true), (ae(1, 2, 1, 1, &[(1, 12)]), false)],
+        // conflict: LogTruncate result ignored, memory overwritten, LogEntryFull fails; retry acknowledges
+        vec![
+            (ae(1, 2, 0, 0, &[(1, 11), (1, 12)]), false),
+            (ae(2, 3, 0, 0, &[]), false),
+            (ae(2, 3, 1, 1, &[(2, 22)]), true),
+            (ae(2, 3, 1, 1, &[(2, 22)]), false),
+        ],
+        // election and proposal
+        vec![(Ev::Elect, true), (Ev::Elect, false), (Ev::Lead, false), (Ev::Prop { c: 31 }, true), (Ev::Prop { c: 32 }, false)],
+        // vote request of a higher term: answered with the old term, nothing granted; then granted; then refused
+        vec![
+            (Ev::Rv { t: 3, c: 2, li: 0, lt: 0 }, true),
+            (Ev::Rv { t: 3, c: 2, li: 0, lt: 0 }, false),
+            (Ev::Rv { t: 3, c: 3, li: 0, lt: 0 }, false),
+        ],
+        // snapshot install
+        vec![
+            (ae(1, 2, 0, 0, &[(1, 11)]), false),
+            (snap(2, 1, &[(1, 11), (1, 12)], false), true),
+            (snap(2, 1, &[(1, 11), (1, 12)], true), false),
+        ],
+        // the unlogged entry under a later leader term of the node itself: WAL log with a hole
+        vec![
+            (ae(1, 2, 0, 0, &[(1, 11)]), false),
+            (ae(1, 2, 1, 1, &[(1, 12)]), true),
+            (Ev::Elect, false),
+            (Ev::Lead, false),
+            (Ev::Prop { c: 33 }, false),
+        ],
+        // candidate sees a higher term while the WAL fails: stays candidate in its term
+        vec![(Ev::Elect, false), (Ev::Rvr { t: 7 }, true), (Ev::Rvr { t: 7 }, false)],
+        // heartbeat / duplicate while the WAL fails: nothing to write, ordinary success
+        vec![(ae(1, 2, 0, 0, &[(1, 11), (1, 12)]), false), (ae(1, 2, 0, 0, &[(1, 11)]), true), (ae(1, 2, 2, 1, &[]), true)],
+    ];
+    raw.into_iter().map(|v| (v.iter().map(|x| x.0.clone()).collect(), v.iter().map(|x| x.1).collect())).collect()
+}
+
 // ---------------------------------------------------------------- size limit / rotation
 
 /// Candidate finding, pending the coordinator's decision: reported through `observe` (not `violation`)
@@ -1557,6 +1730,9 @@ fn main() {
         "snapshot.script.suffix_conflicts", "cut.mid_snapshot_install", "cut.mid_snapshot_install.some_entries_durable",
         "chain.crash_mid_install",
         "rot.append.rotates", "rot.append.fits", "rot.case.never_rotated", "rot.node.rotated",
+        "fail.ev.term_record_path", "fail.ev.log_or_none_path", "fail.append_entries", "fail.propose",
+        "fail.install_snapshot", "fail.elect", "fail.request_vote", "fail.vote_response",
+        "fail.memory_log_changed_without_wal", "reply.walfail",
     ]
     .iter()
     .map(|s| s.to_string())
@@ -1566,7 +1742,7 @@ fn main() {
     let root = Rng::new(args.seed);
     let thorough = args.thorough;
     {
-        let mut cx = Ctx { m: &mut m, rep: &mut rep, seen: HashSet::new(), thorough, rot_observed: false };
+        let mut cx = Ctx { m: &mut m, rep: &mut rep, seen: HashSet::new(), thorough, rot_observed: false, walfail_observed: false, slow_budget: if thorough { 40 } else { 2 } };
         let t_all = std::time::Instant::now();
         let mut r = root.fork("raw");
         let n_raw = if thorough { 1500 } else { 150 };
@@ -1590,7 +1766,17 @@ fn main() {
             let (script, variant) = snapshot_script(&mut r);
             cx.rep.hit(&format!("snapshot.script.{variant}"));
             cx.thorough = thorough && i < 30;
-            run_case(&mut cx, &mut r, 10_000 + i, 2, Some(script), "snapshot");
+            run_case(&mut cx, &mut r, 10_000 + i, 2, Some(script), "snapshot", &FailCfg::none());
+        }
+        if std::env::var("C10_TIMES").is_ok() { eprintln!("before fail {:?}", t_all.elapsed()); }
+        let mut r = root.fork("fail");
+        cx.thorough = false;
+        for (i, (script, flags)) in fail_scripts().into_iter().enumerate() {
+            cx.rep.hit("fail.script.directed");
+            run_case(&mut cx, &mut r, 40_000 + i as u64, if thorough { 2 } else { 1 }, Some(script), "fail", &FailCfg { scripted: flags, prob: 25 });
+        }
+        for i in 0..(if thorough { 300 } else { 8 }) {
+            run_case(&mut cx, &mut r, 41_000 + i, 2, None, "fail", &FailCfg { scripted: vec![], prob: 30 });
         }
         probe_codebook(&mut cx);
         if std::env::var("C10_TIMES").is_ok() { eprintln!("before chain {:?}", t_all.elapsed()); }
@@ -1600,7 +1786,7 @@ fn main() {
         let n_chain = if thorough { 400 } else { 40 };
         for i in 0..n_chain {
             cx.thorough = thorough && i < 30;
-            run_case(&mut cx, &mut r, i, 3, None, "chain");
+            run_case(&mut cx, &mut r, i, 3, None, "chain", &FailCfg::none());
         }
     }
     if std::env::var("C10_TIMES").is_ok() { eprintln!("end {:?}", t_all_end.elapsed()); }
